@@ -202,6 +202,10 @@ func IllFormed() []Ill {
 			}
 		}
 	}
+	// the two-argument form of AUTH
+	add("AUTH", [][]byte{[]byte("AUTH"), []byte("default"), nil}, "null", 2)
+	add("AUTH", [][]byte{[]byte("AUTH"), nil, []byte("sesame")}, "null", 1)
+	add("AUTH", [][]byte{[]byte("AUTH"), nil, nil}, "null", 1)
 	// optional numeric arguments
 	for _, name := range []string{"LPOP", "RPOP"} {
 		for _, t := range badInts {
